@@ -36,7 +36,7 @@ ASSUMPTIONS = ["history quantifier: induction over the sequence of operations, e
                "propagating transform, Sim(3) transforms (fix 55f4c1d), quaternion-built storage mode: bounded histories"]
 EXPLANATION = "representation-level contracts per operation + closure lemma for SE(3)"
 
-OPS = ["transform_left", "transform_right", "transform_prop", "transform_sim3", "scale", "reduce", "downsample", "motion",
+OPS = ["transform_left", "transform_right", "transform_prop", "transform_sim3", "transform_prop_sim3", "transform_right_sim3", "scale", "reduce", "downsample", "motion",
        "crop", "align", "align_origin", "project", "copy"]
 READS = ["positions_xyz", "orientations_quat_wxyz", "poses_se3", "distances", "path_length", "speeds", "none"]
 
@@ -113,6 +113,18 @@ def chk_history(inp):
                 if not (np.allclose(new[:, :3, 3], s * (R @ old[:, :3, 3].T).T + tt, atol=1e-8 * max(1.0, np.abs(new).max()))
                         and np.allclose(new[:, :3, :3], np.einsum("ij,njk->nik", R, old[:, :3, :3]), atol=1e-9)):
                     return [tag + ": similarity_maps_positions_by_sRp+t_and_orientations_by_R"]
+            elif op in ("transform_prop_sim3", "transform_right_sim3"):
+                # right-multiplied / propagating similarity: the documented effect on the positions is not spelled out by
+                # the property; what it does state: the first pose is kept by the propagating variant, every pose stays
+                # a valid rigid-body pose (checked by _consistent below), count and timestamps unchanged
+                s = float(rng.uniform(0.5, 3))
+                R, tt = B.rand_rotation(rng, "uniform"), rng.normal(size=3)
+                t.transform(lie.sim3(R, tt, s), right_mul=True, propagate=op == "transform_prop_sim3")
+                new = np.array(t.poses_se3)
+                if len(new) != n:
+                    return [tag + ": same_number_of_poses"]
+                if op == "transform_prop_sim3" and n >= 1 and not np.allclose(new[0], old[0], atol=1e-12 * max(1.0, np.abs(old[0]).max())):
+                    return [tag + ": propagating_variant_keeps_the_first_pose"]
             elif op == "scale":
                 s = float(rng.uniform(0.2, 4))
                 t.scale(s)
@@ -164,6 +176,14 @@ def chk_history(inp):
             return [tag + ": raised %r" % (e, )]
         f = _consistent(t, tag)
         if f:
+            n_prop = sum(1 for o in inp["ops"][:step + 1] if o == "transform_prop")
+            if n_prop >= 3 and any("validity_check" in x or "quaternions_describe" in x for x in f):
+                # known finding F10: the propagating transform amplifies the rounding error of the rotation blocks by
+                # about the number of poses each time it is applied
+                R = np.array(t.poses_se3)[:, :3, :3]
+                dev = float(np.abs(np.einsum("nij,nkj->nik", R, R) - np.eye(3)).max())
+                return ["validity_lost_after_repeated_propagating_transforms (%d propagating transforms, %d poses, "
+                        "|R R^T - I| = %.3g): %s" % (n_prop, t.num_poses, dev, f[0])]
             return f
         if t.num_poses < 1:
             return []
@@ -182,13 +202,15 @@ def _cases(tier, seed):
     import itertools
     rng = np.random.default_rng(seed + 808)
     depth = 2 if tier == "quick" else 3
-    core = ["transform_left", "transform_right", "transform_prop", "transform_sim3", "scale", "reduce", "align_origin",
-            "project", "copy"]
+    core = ["transform_left", "transform_right", "transform_prop", "transform_sim3", "transform_prop_sim3", "scale", "reduce",
+            "align_origin", "project", "copy"]
     # exhaustive to a bounded depth, from both construction modes, with and without stamps
     for ops in itertools.product(core, repeat=depth):
         for fp in (False, True):
             yield ("history", {"seed": hash(ops) % 10**6, "n": 6, "stamps": fp, "from_poses": fp, "ops": list(ops),
                                "reads": [READS[(hash(ops) + i) % 6] for i in range(depth)]})
+    # documented witness of known finding F10 (repeated propagating transforms on a long trajectory)
+    yield ("history", {"seed": 10, "n": 186, "stamps": True, "from_poses": True, "ops": ["transform_prop"] * 6, "reads": ["none"] * 6})
     for it in range(60 if tier == "quick" else 5000):
         L = 15
         yield ("history", {"seed": int(rng.integers(0, 10**9)), "n": int(rng.integers(1, 60 if tier == "quick" else 200)),
